@@ -368,9 +368,83 @@ def check_C13(run):
                        known=known_F21)
 
 
+RULE_CRASH = ("the workload (7 transactions over all structures, random RAM index mode / RWMode / StartFileLoadingMode / "
+              "SyncEnable / segment size 150-300) runs once on the real library with every file mutation recorded through the "
+              "verif hooks; for EVERY mutation point, and for each write a set of torn prefixes (0,1,4,12,16,20,22,26,30,32,34,"
+              "42,43,n/2,n-1 bytes), the directory a crash would leave is rebuilt from the recorded events, opened with the real "
+              "Open (alternating RWMode/StartFileLoadingMode) and fully observed; the observation must equal the live observation "
+              "before the in-flight transaction or after it; every 7th image is continued (5 further commits forcing a rotation, "
+              "clean close, reopen). A case is one image; all are distinct (event index x torn length x variant)")
+
+
+def crash_cov(run, r):
+    for l in r.info:
+        if l.startswith("#STAT crash images="):
+            try:
+                imgs = int(l.split("images=")[1].split(" ")[0])
+                run.cov["evaluations"] += imgs
+                run.cov["distinct_nontrivial"] += imgs
+                run.cov.setdefault("crash_images", 0)
+                run.cov["crash_images"] += imgs
+            except Exception:
+                pass
+
+
+def check_C09(run):
+    n = 12 if run.tier == "quick" else 250
+    r = hist_suite(run, "crash", ["hist", "-n", n, "-x", "crash"], RULE_CRASH, use_driver=False)
+    crash_cov(run, r)
+    check_hist_generic(run, [("reopen", "reopen", 150, 3000, RULE_HIST + "; profile reopen (exact-fill entries, no-op operations, "
+                              "reads of missing buckets; every Close/Open must succeed)"),
+                             ("abort", "abort", 100, 2000, RULE_HIST + "; profile abort (failed and rolled-back transactions before reopen)")])
+
+
+def check_C10(run):
+    n = 14 if run.tier == "quick" else 300
+    r = hist_suite(run, "crash", ["hist", "-n", n, "-x", "crash"], RULE_CRASH, use_driver=False)
+    crash_cov(run, r)
+
+
+def check_C11(run):
+    n = 12 if run.tier == "quick" else 250
+    r = hist_suite(run, "power", ["hist", "-n", n, "-x", "power"], RULE_CRASH + "; POWER LOSS (SyncEnable=true): additionally each "
+                   "image is built from the DURABLE content (each file reverts to its content at its last sync; the unsynced last "
+                   "write dropped, kept or torn) and the recorded trace is checked against the protocol predicate of TraceFacts "
+                   "(every data-file write followed by a sync of that file before the next write)", use_driver=False)
+    crash_cov(run, r)
+
+
+def check_C19(run):
+    n = 12 if run.tier == "quick" else 250
+    hist_suite(run, "opts", ["hist", "-n", n, "-x", "opts"], RULE_HIST + "; every history is executed under all 16 combinations of "
+               "{HintKeyValAndRAMIdxMode, HintKeyAndRAMIdxMode} x RWMode x StartFileLoadingMode x SyncEnable; result sequences "
+               "(incl. full observations after every reopen) must be identical across combinations, and each run equals model and spec")
+
+
+def check_C20(run):
+    n = 400 if run.tier == "quick" else 8000
+    hist_suite(run, "fuzz", ["hist", "-n", n, "-x", "fuzz"], "boundary-heavy calls of every exported DB/Tx method (empty keys and "
+               "buckets, '|' separators, +-2^63 indexes and counts, NaN/Inf/denormal scores, invalid regexps, closed database, "
+               "finished transactions, Merge/Backup/Close in any state, reopen with other options); panics are recovered per call and "
+               "reported; a case is one call", use_driver=False)
+    check_hist_generic(run, [("list", "list", 200, 4000, RULE_HIST + "; profile list with +-2^63 arguments: a panic is a mismatch "
+                              "with the (panic-free) model"),
+                             ("zset", "zset", 200, 4000, RULE_HIST + "; profile zset with extreme ranks"),
+                             ("dslist", "dslist", 200, 4000, "exported ds/list driven directly with +-2^63 arguments")])
+
+
+def check_C22(run):
+    n = 12 if run.tier == "quick" else 250
+    hist_suite(run, "modes", ["hist", "-n", n, "-x", "modes"], "all 9 pairs (mode that created the directory, mode used to reopen) "
+               "over directory states {empty, freshly opened, written, rotated over several segments, merged, torn tail}: "
+               "sparse<->RAM must be refused with the directory byte-identical (sha1 of every file) before and after; RAM<->RAM and "
+               "same-mode reopen must succeed with an identical full observation (RAM<->RAM runs are also compared with model and spec)")
+
+
 CHECKS = {
     "C21": check_C21, "C01": check_C01, "C03": check_C03, "C04": check_C04, "C05": check_C05, "C06": check_C06,
     "C07": check_C07, "C08": check_C08, "C12": check_C12, "C13": check_C13,
+    "C09": check_C09, "C10": check_C10, "C11": check_C11, "C19": check_C19, "C20": check_C20, "C22": check_C22,
 }
 
 
